@@ -558,9 +558,17 @@ class Engine(CoreMixin, ExprMixin, CallMixin, StmtMixin, BuiltinMixin):
             o.result = smt.solve_text(text_of(ro), timeout=1.5, keep_dir=keep_dir, name=o.name, order=["z3-5.1.0"], quick_first=False)
             return ro
 
+        # phase 2 has an overall wall budget: on a tree where one change leaves hundreds of obligations open (every instantiation of
+        # a widely used contract), racing each of them for the full timeout kept a quick check busy for half an hour; obligations
+        # not reached within the budget stay undecided (never a verdict).  The unchanged tree uses a fraction of it.
+        p2_deadline = time.time() + (300.0 if timeout <= 20 else 2400.0)
+
         def full(ro):
             rep, o = ro
             first = o.result.attempts
+            if time.time() > p2_deadline:
+                o.result.attempts = list(first) + [("none", "phase-2 budget exhausted", 0.0)]
+                return ro
             o.result = smt.solve_text(text_of(ro), timeout=timeout, keep_dir=keep_dir, name=o.name, quick_first=False, race_all=True,
                                       order=None)
             o.result.attempts = list(first) + list(o.result.attempts)
